@@ -65,6 +65,7 @@ pub struct Script {
     pub drop_alloc_size: u64,
     pub count_alloc_n: u64,
     /// Real-time skew: sleep `us` in `phase` on thread `k` (or all).
+    pub stash_equal: bool,
     pub skew_phase: u64,
     pub skew_thread: u64,
     pub skew_us: u64,
@@ -105,6 +106,7 @@ impl Script {
             stash_n: c.u64("stash", 0),
             stash_size: c.u64("stashsz", 64),
             stash_where: c.u64("stashw", 0),
+            stash_equal: c.u64("stashe", 0) != 0,
             drop_alloc_n: c.u64("dan", 0),
             drop_alloc_size: c.u64("dasz", 16),
             count_alloc_n: c.u64("can", 0),
@@ -276,6 +278,21 @@ pub fn prefill_stash() {
 fn stash_pop(place: u64) {
     let s = script();
     if s.stash_n == 0 || s.stash_where != place {
+        return;
+    }
+    if s.stash_equal {
+        // the thread reallocates "its" stashed block (slot = thread index) to the size it already has and keeps it: an
+        // allocator operation that moves zero bytes, on a block that is older than any timed section
+        let k = evlog::kidx() as usize;
+        if k < STASH_CAP && (k as u64) < STASH_TOP.load(Relaxed) {
+            let size = STASH_SIZE.load(Relaxed) as usize;
+            let p = STASH[k].swap(std::ptr::null_mut(), Relaxed);
+            if !p.is_null() {
+                let np = unsafe { realloc(p, Layout::from_size_align(size, 8).unwrap(), size) };
+                assert!(!np.is_null());
+                STASH[k].store(np, Relaxed);
+            }
+        }
         return;
     }
     let mut top = STASH_TOP.load(Relaxed);
